@@ -6,7 +6,10 @@
    of the skeleton of f (calls inlined, loops unrolled 0, 1 and 2 times, which is exhaustive modulo the collapse
    when a loop body emits at most one distinct observable).  The check requires every logged word to be in the
    set: the single-threaded lock/unlock/policy log of every API call equals a path-trace of the generated
-   skeleton (modulo the run-length collapse). *)
+   skeleton (modulo the run-length collapse).  ShapesSound.v proves that every word of [shapes fs f] is the
+   observation of a genuine path-trace of f. *)
+
+
 From Coq Require Import List String Bool Arith.
 From FV Require Import SlabConc.Skeleton.
 Import ListNotations.
@@ -79,14 +82,17 @@ Fixpoint sgo (ck : string -> sst -> list sst) (c : sk) (st : sst) {struct c} : l
 
 Fixpoint scall (fuel : nat) (fs : skeleton) (f : string) (st : sst) {struct fuel} : list sst :=
   match fuel with
-  | 0 => [(push "FUEL" (fst st), snd st)]
+  | 0 => []                                    (* out of fuel: no shape (every logged call then mismatches) *)
   | S n =>
       match lookup fs f with
       | Some b => let (fb, rb) := sgo (scall n fs) b st in sunion fb rb
-      | None => [(push ("MISSING:" ++ f) (fst st), snd st)]
+      | None => []
       end
   end.
 
 Definition shapes (fs : skeleton) (f : string) : list (list string) :=
   nodup (list_eq_dec string_dec)
         (map (fun st : sst => rev (fst st)) (scall (S call_depth) fs f ([], None))).
+
+(* the observation of a whole event trace *)
+Definition obs_run (st : sst) (t : list ev) : sst := fold_left (fun st e => obs_ev e st) t st.
